@@ -61,6 +61,10 @@ type Config struct {
 	// PointGap is the mean number of Point() calls between two point
 	// preemptions (0 = never preempt at a Point).
 	PointGap int64 `json:"point_gap,omitempty"`
+	// StallSteps > 0: a goroutine preempted at a Point is stalled (not
+	// chosen while anybody else can run) for 1..2*StallSteps decisions: a
+	// slow thread, which turns a window of a few instructions into a long one.
+	StallSteps int64 `json:"stall_steps,omitempty"`
 	// PCTDepth is the number of priority change points (pct mode).
 	PCTDepth int `json:"pct_depth,omitempty"`
 	// PCTHorizon is the step range in which change points are placed.
@@ -123,6 +127,7 @@ type Result struct {
 	Steps          int64 `json:"steps"`
 	Contended      int64 `json:"contended"`
 	Deviations     int64 `json:"deviations"`
+	Stalls         int64 `json:"stalls,omitempty"`
 	PointPreempts  int64 `json:"point_preempts"`
 	SelectReorders int64 `json:"select_reorders"`
 	MapPermuted    int64 `json:"map_permuted"`
@@ -184,6 +189,8 @@ type Task struct {
 	site   string
 	waitMu unsafe.Pointer
 	wake   int64
+	// stallUntil: not chosen before this step while others are runnable
+	stallUntil int64
 
 	panicVal   string
 	panicStack string
@@ -237,6 +244,11 @@ type Sim struct {
 	nextPoint    int64
 	pointCursor  int
 	forcePreempt bool
+	unstalled    []*Task
+	siteStall    bool // StallSteps > 0 and not replaying
+	stallEnd     int64
+	sites        [1024]uintptr
+	nsites       int
 	trng         prng
 	selCalls     int64
 	selCursor    int
@@ -377,10 +389,57 @@ func Point(site string) {
 		return
 	}
 	s.points++
+	if s.siteStall && s.firstVisit(site) && s.stallEnd <= s.steps && s.trng.intn(3) == 0 {
+		// the first time this run reaches this lookup: code that runs
+		// rarely (a rebuild, a first fill) starts here, and the goroutine
+		// that runs it is the one that is slow today
+		s.pointStall(site)
+		return
+	}
 	if s.points != s.nextPoint {
 		return
 	}
 	s.pointHit(site)
+}
+
+// firstVisit reports whether no Point with this site ran before in this run.
+// Sites are string constants, one per call site: the address of the bytes
+// identifies the site (only "seen before or not" is used, never the address).
+//
+//go:norace
+func (s *Sim) firstVisit(site string) bool {
+	p := uintptr(unsafe.Pointer(unsafe.StringData(site)))
+	if p == 0 || s.nsites >= len(s.sites)/2 {
+		return false
+	}
+	i := int((uint64(p>>3) * 0x9e3779b97f4a7c15) >> 54)
+	for {
+		switch s.sites[i] {
+		case p:
+			return false
+		case 0:
+			s.sites[i] = p
+			s.nsites++
+			return true
+		}
+		i = (i + 1) & (len(s.sites) - 1)
+	}
+}
+
+//go:norace
+func (s *Sim) pointStall(site string) {
+	raceDisable()
+	t := self()
+	raceEnable()
+	if t == nil || t.nopreempt > 0 || s.dead {
+		return
+	}
+	s.forcePreempt = true
+	t.stallUntil = s.steps + 1 + s.trng.intn(2*s.cfg.StallSteps)
+	s.stallEnd = t.stallUntil
+	s.res.Stalls++
+	s.recPoints = append(s.recPoints, s.points)
+	s.park(t, mPark, site, nil)
 }
 
 //go:norace
@@ -410,6 +469,12 @@ func (s *Sim) pointHit(site string) {
 		return
 	}
 	s.forcePreempt = true
+	if s.siteStall && s.stallEnd <= s.steps && s.trng.intn(4) == 0 {
+		// one slow goroutine at a time
+		t.stallUntil = s.steps + 1 + s.trng.intn(2*s.cfg.StallSteps)
+		s.stallEnd = t.stallUntil
+		s.res.Stalls++
+	}
 	s.recPoints = append(s.recPoints, s.points)
 	s.park(t, mPark, site, nil)
 }
@@ -906,7 +971,23 @@ func (s *Sim) schedule() string {
 			def = run[0]
 			key = "!" + itoa(s.steps)
 		}
-		choice, clock := s.choose(run, def, prev, key, sleepers > 0)
+		cand, cdef := run, def
+		if s.siteStall {
+			// stalled goroutines stay behind while anybody else can run
+			cand = s.unstalled[:0]
+			for _, t := range run {
+				if t.stallUntil <= s.steps {
+					cand = append(cand, t)
+				}
+			}
+			s.unstalled = cand
+			if len(cand) == 0 {
+				cand = run
+			} else if def.stallUntil > s.steps {
+				cdef = cand[0]
+			}
+		}
+		choice, clock := s.choose(cand, cdef, prev, key, sleepers > 0)
 		s.forcePreempt = false
 
 		if clock {
@@ -1014,6 +1095,13 @@ func (s *Sim) choose(run []*Task, def, prev *Task, key string, haveSleepers bool
 		return run[s.rng.intn(int64(len(run)))], false
 
 	case "pct":
+		if s.forcePreempt && prev != nil && prev.state == stParked {
+			// a preemption at a lookup point is a priority change point too:
+			// the goroutine stays behind until everybody else is blocked
+			// (how a short window between two of its steps becomes a long one)
+			s.lowPrio--
+			prev.prio = s.lowPrio
+		}
 		for len(s.pctPoints) > 0 && s.pctPoints[0] <= s.steps {
 			if prev != nil {
 				prev.prio = -int64(len(s.pctPoints))
@@ -1071,6 +1159,7 @@ func Run(t *testing.T, cfg Config, root func()) (res Result) {
 		sortInt64(s.pctPoints)
 	}
 	s.lowPrio = -1000
+	s.siteStall = cfg.StallSteps > 0 && cfg.Mode != "explicit" && cfg.Mode != "default"
 	s.res.Hash = fnvOff
 	s.res.ContendedHash = fnvOff
 	tabReset()
